@@ -10,7 +10,9 @@ HERE = os.path.dirname(os.path.abspath(__file__))
 VERIF = os.path.dirname(HERE)
 INC = os.path.join(VERIF, 'seeded', '_incoming')
 # checks to run against a mutant in addition to the property it was written for
-EXTRA = {'C08-B': ['C14'], 'C06-B': ['C14'], 'C04-B': ['C06'], 'C09-A': ['C15'], 'C10-B': ['C13'], 'C13-B': ['C10'], 'C03-A': ['C06', 'C04'],
+EXTRA = {'C02-D': ['C14'], 'C04-C': ['C03'], 'C04-D': ['C03', 'C06'], 'C06-C': ['C14'], 'C06-D': ['C03'], 'C09-D': ['C14'], 'C10-D': ['C07'], 'C11-D': ['C02', 'C14'],
+         'C13-C': ['C14'], 'C14-C': ['C07'], 'C14-D': ['C06'], 'C16-D': ['C14'], 'C05-C': ['C06'], 'C03-C': ['C13'], 'C07-C': ['C14'], 'C15-C': ['C09'], 'C01-D': ['C14'], 'C17-C': ['C09'],
+         'C08-B': ['C14'], 'C06-B': ['C14'], 'C04-B': ['C06'], 'C09-A': ['C15'], 'C10-B': ['C13'], 'C13-B': ['C10'], 'C03-A': ['C06', 'C04'],
          'C11-A': ['C03'], 'C02-B': ['C14'], 'C14-A': ['C02'], 'C01-B': ['C02'], 'C05-B': ['C03']}
 
 
@@ -68,8 +70,8 @@ def main():
     pids = sys.argv[1:] or sorted(d for d in os.listdir(INC) if d.startswith('C'))
     out = []
     for pid in pids:
-        for tag in ('A', 'B'):
-            if os.path.exists(os.path.join(INC, pid, tag + '.diff')):
+        for tag in sorted(f[:-5] for f in os.listdir(os.path.join(INC, pid)) if f.endswith('.diff')):
+            if True:
                 r = one(pid, tag)
                 out.append(r)
                 print(json.dumps({k: r.get(k) for k in ('id', 'applies', 'confirmed', 'repo_tests', 'demo_on_unchanged_tree_exit', 'demo_with_change_exit', 'caught_by')}), flush=True)
